@@ -63,7 +63,7 @@ def _plan(rng, B):
 
 
 def _gen(rng, fresh):
-    w = cropkit.gen_workload(rng, nmax=40)
+    w = cropkit.gen_workload(rng, nmax=40, exotic=True)
     if w["mode"] != "grid":
         w["via"] = rng.choice(["sow_combos", "sow_cases", "sow_cases"])
         w["case_spelling"] = rng.choice(["dict", "tuple"])
